@@ -231,6 +231,9 @@ func runConc(c concCase) [][][]rec {
 type parCase struct {
 	Programs []string `json:"programs"`
 	Reps     int      `json:"reps"`
+	// ParFirst: run the parallel repetitions BEFORE the "alone" runs, so that process-wide lazily grown
+	// state (memo tables, caches) is first touched by several goroutines at once (cold start).
+	ParFirst bool `json:"par_first"`
 }
 
 func evalOne(src string) (res []string, err error) {
@@ -271,8 +274,13 @@ func show(res []string, err error) any {
 
 func runPar(c parCase) parOut {
 	out := parOut{}
-	for _, p := range c.Programs {
-		out.Alone = append(out.Alone, show(evalOne(p)))
+	alone := func() {
+		for _, p := range c.Programs {
+			out.Alone = append(out.Alone, show(evalOne(p)))
+		}
+	}
+	if !c.ParFirst {
+		alone()
 	}
 	for rep := 0; rep < c.Reps; rep++ {
 		g := len(c.Programs)
@@ -292,6 +300,9 @@ func runPar(c parCase) parOut {
 		}
 		wg.Wait()
 		out.Parallel = append(out.Parallel, row)
+	}
+	if c.ParFirst {
+		alone()
 	}
 	return out
 }
